@@ -9,3 +9,4 @@ import "sync"
 func verifLock(*sync.Mutex, string)    {}
 func verifPoint(string, string)        {}
 func verifNote(string, string, uint64) {}
+func verifFault(string) error          { return nil }
